@@ -171,3 +171,34 @@ class ContainerT(T):
         if self.repeat and self.k >= 2:
             elems[-1] = elems[0]          # the same instance twice
         return Obj(TractList, {'_elements': elems}, tag=name)
+
+
+def to_obj(x, depth=0):
+    """convert a natively built repo object into an interpreted Obj (fields copied; nested repo objects converted)"""
+    mod = getattr(type(x), '__module__', '') or ''
+    if mod.startswith('pytrs') and not isinstance(x, type) and hasattr(x, '__dict__') and depth < 6:
+        return Obj(type(x), {k: to_obj(v, depth + 1) for k, v in vars(x).items()}, tag=type(x).__name__)
+    if isinstance(x, list):
+        return [to_obj(v, depth + 1) for v in x]
+    if isinstance(x, dict):
+        return {k: to_obj(v, depth + 1) for k, v in x.items()}
+    return x
+
+
+class Native(T):
+    """an object built natively by `factory()` (real constructor, concrete arguments), then selected fields replaced by
+    symbolic shapes: overrides = {'field' or 'field.sub': shape}"""
+
+    def __init__(self, factory, **overrides):
+        self.factory = factory
+        self.overrides = overrides
+
+    def make(self, ip, name):
+        o = to_obj(self.factory())
+        for path, shape in self.overrides.items():
+            tgt = o
+            parts = path.split('__DOT__')
+            for p in parts[:-1]:
+                tgt = tgt.fields[p]
+            tgt.fields[parts[-1]] = shape.make(ip, f"{name}_{parts[-1]}") if isinstance(shape, T) else shape
+        return o
